@@ -136,9 +136,9 @@ CHECKS["C15"] = dict(
 CHECKS["C04"] = dict(
     engine="store-driver",
     category="exploration",
-    text="Accept half: after every operation of generated histories (rollover ratios 1, 2, 8) an independent parser re-checks every manifest fragment: input == previous output, input == output + discard, discard == sum(removed) - sum(added), fragments chain through their roll-ups, final output == sum of listed digests, and each listed sst's name, stored setsum and setsum recomputed from a full walk agree; every verifier pass must accept or back off. Reject half: one hex digit of one recorded digest (+, -, I, O, D of a non-roll-up transaction) is altered with the line CRC fixed up; ManifestVerifier must reject the fragment and, when the offline verifier processes that fragment on the genuine history, LsmVerifier must reject the tampered copy.",
+    text="Accept half: after every operation of generated histories (rollover ratios 1, 2, 8) an independent parser re-checks every manifest fragment: input == previous output, input == output + discard, discard == sum(removed) - sum(added), fragments chain through their roll-ups, final output == sum of listed digests, and each listed sst's name, stored setsum and setsum recomputed from a full walk agree; every verifier pass must accept or back off. Reject half: one hex digit of one recorded digest (+, -, I, O, D of a non-roll-up transaction) is altered with the line CRC fixed up; ManifestVerifier must reject the fragment and, when the offline verifier processes that fragment on the genuine history, LsmVerifier must reject the tampered copy; and a GC output from which one policy-required entry was removed, with the whole later history re-balanced so that all equations still hold, must be rejected by the verifier's GC replay.",
     design_ref="DESIGN.md §5 C04",
-    note=STORE_NOTE + " Content-level tampers with consistently re-balanced accounting (a GC output missing a retained entry) are not generated; the GC replay of the verifier is exercised on genuine histories only.",
+    note=STORE_NOTE + "",
     technique="stateful property-based testing with an independent balance checker (accept) and single-digit digest tampering (reject)",
 )
 
@@ -167,6 +167,15 @@ CHECKS["C17"] = dict(
     design_ref="DESIGN.md §5 C17",
     note="Token scheduling yields sequentially consistent executions at hook granularity only; orderings weaker than x86-TSO are out of reach. At most 4 threads x 6 inserts per scheduled case.",
     technique="property-based testing over generated (workload, schedule) pairs with a deterministic cooperative scheduler, plus generated multi-threaded stress",
+)
+
+CHECKS["C12"] = dict(
+    engine="pbt",
+    category="exploration",
+    text="Generated-input search in four parts: (1) sequential round-trip - generated batch sequences whose fillers are computed from the builder's offset so that exactly 0..45 (up to 70 000) bytes remain before the next 1 MiB boundary, then probes that fit the remaining room +-delta, maximal batches, empty and over-full batches; LogIterator output, seal() setsum and the builder offsets are compared with the appended list and with the harness's own frame parser. (2) truncation - for each built image every cut length inside every split batch, padding, boundary neighbourhood and the last frames (up to 900 / 2500 cuts per case): the reader must yield exactly the batches that end before the cut and then end or fail, never panic. (3) concurrent append - 2-8 real threads through one ConcurrentLogBuilder<File> with write/fdatasync/fsync interposed in the harness binary, generated delays inside the calls and forced pile-ups; each batch once, whole, per-thread and real-time order kept, and each append returns only after an fdatasync covering its bytes completed. (4) hand-made frames with wrong CRCs / discriminants / lengths: no panic, only entries present in the input. Sizes x boundaries x schedules is unbounded, so sampling with boundary-computed generators is the appropriate level.",
+    design_ref="DESIGN.md §5 C12",
+    note="Durability is judged on intercepted libc calls (tmpfs persists nothing). Thread interleavings are those the OS produces under generated delays and forced pile-ups, not an exhaustive schedule enumeration. Logs stay far below the 1 GiB roll-over size.",
+    technique="property-based testing (proptest): round-trip against the appended list and an independent frame parser, exhaustive-per-case truncation sweep, generated multi-threaded runs with libc interposition",
 )
 
 NOT_YET = {
